@@ -161,6 +161,24 @@ static void mode_millis(vf::Ctx& c)
 			c.fail("parse.FULL.ms", vf::fmt("parsed %.6f want %.6f", p.time(), t));
 		}
 	}
+	// instants between the millisecond marks, incl. the last half millisecond of a second / of a day: the FULL text must parse
+	// back to within a millisecond of the instant
+	static const double subms[] = {0.0004, 0.00049, 0.0005, 0.00051, 0.9994, 0.99949, 0.9995, 0.99951, 0.9996, 0.9999, 0.99999, 0.999999};
+	int secs2[] = {secs, 86399, 0, 43199, 3599, 59};
+	for (int si = 0; si < 6; si++)
+		for (size_t k = 0; k < sizeof(subms) / sizeof(subms[0]) + 8; k++) {
+			double fr = k < sizeof(subms) / sizeof(subms[0]) ? subms[k] : c.rng.unit();
+			double t = (double)day * 86400.0 + secs2[si] + fr;
+			if (t - floor(t) < 1e-7 || fabs(t) > 2e11) continue;   // keep at least microsecond resolution in the double
+			Date dt(t);
+			String s = dt.toUTCString(Date::FULL);
+			Date p(s);
+			if (!(fabs(p.time() - t) < 0.00100001)) {
+				c.desc(vf::fmt("t=%.7f (day %lld, second %d, fraction %.7f) FULL='%s'", t, day, secs2[si], fr, *s));
+				c.fail(secs2[si] == 86399 && fr >= 0.9995 ? "parse.FULL.submillisecond.end-of-day" : "parse.FULL.submillisecond", vf::fmt("parsed %.6f, instant %.6f, difference %.6f s", p.time(), t, p.time() - t));
+			}
+			c.evals(1);
+		}
 	c.evals(1000);
 	c.distinct((uint64_t)day * 86400 + secs);
 	if (c.want_sample()) c.sample(vf::fmt("day %lld second %d, all 1000 millisecond fractions through FULL format+parse", day, secs));
